@@ -86,6 +86,23 @@ STYLES = {
        "genesis import/export code, app/ante, the gov EndBlocker or GetSigners / GetSignBytes / ValidateBasic of proposal "
        "contents, and add no in-memory caches or Go maps (earlier engineers did all of that). The effect should ideally "
        "appear only some operations or blocks after the faulty step."),
+ '11': ("Prefer one of these styles, whichever fits, and prefer functions and modules listed above that the earlier "
+       "engineers did NOT touch: (a) cross-module hooks and callbacks (staking hooks consumed by multistaking / distributor / "
+       "slashing, the fee-processing and distributor bookkeeping fed by the ante handlers and read by Begin/EndBlockers, a "
+       "keeper method of one module called by three others): an argument passed in the wrong unit or order, a hook no longer "
+       "called on one path, a callee whose result is ignored; (b) integer and decimal conversions: uint64 <-> int64 <-> sdk.Int, "
+       "Dec -> Int by TruncateInt vs RoundInt vs Ceil, a value that no longer fits, a subtraction that can go below zero for "
+       "particular operands, a comparison between values of different scale; (c) secondary records: an index, counter, queue, "
+       "reverse lookup or 'last id' that is written on creation but not maintained on ONE of the update / delete / rename / "
+       "expiry paths, or is maintained for the wrong key; (d) the store keys themselves: a separator or length prefix dropped, "
+       "an id encoded with a different width or byte order on one path, an iteration prefix that also matches the keys of a "
+       "sibling object; (e) a state flag with more than two values (status enums of validators, proposals, dApps, collectives, "
+       "custody records) where one value is now treated like another in ONE place; (f) defaults: a default parameter / genesis "
+       "value or a zero-value fallback changed so that a bound the property relies on no longer holds from the first block. "
+       "Do NOT touch x/recovery, x/ethereum, genesis import/export code, app/ante, GetSigners / GetSignBytes / ValidateBasic "
+       "of any message or proposal content, x/custody/types/keys.go or x/gov/types/actor.go, and add no in-memory caches or Go "
+       "maps (earlier engineers did all of that). The effect should ideally appear only some operations or blocks after the "
+       "faulty step."),
  '5': ("Prefer one of these styles, whichever fits: (a) arithmetic: a changed rounding direction, order of "
        "multiplication and division, integer width or sign conversion that only matters for particular magnitudes; "
        "(b) iteration: an iterator bound, prefix or pagination change that only matters when a second object with a "
